@@ -5,6 +5,6 @@ Extraction "model_c15.ml"
   doc_agrees doc_spec_ok doc_kf input_wf bad_agrees
   typed_agrees typed_spec_ok
   raw_agrees raw_spec_ok
-  decode_prop prop_decode prop_obs_agrees
+  decode_prop prop_decode prop_obs_agrees decode_prop_all propm_obs_agrees
   name_agrees value_xml_name
   capture drain marshal retrans reread parse_tree same_stream somes drained.
